@@ -153,7 +153,9 @@ func NewFixture(v Variant) *Fixture {
 		policy.Or(policy.Like(".s?", "*@example.com"), policy.Any(".l?", policy.Equal(".", literal.Int(2))), policy.Equal(".a?", literal.Int(1)), policy.Not(policy.Equal(".a?", literal.Int(5)))),
 		policy.And(policy.All(".l?", policy.GreaterThan(".", literal.Int(0))), policy.Not(policy.Like(".s?", "x*")), policy.LessThan(".a?", literal.Int(9)))))
 	// (a negative slice bound: resolving it against lists of different lengths must not rebase the parsed selector)
-	pol1 := withSpare(policy.MustConstruct(policy.LessThanOrEqual(".c?", literal.Int(3)), policy.Any(".l?[-2:]", policy.GreaterThan(".", literal.Int(0))), policy.Equal(".l?[-1]", literal.Int(3))))
+	// (a character slice of a string that is not ASCII: whatever scratch space slicing by character needs is the call's own)
+	pol1 := withSpare(policy.MustConstruct(policy.LessThanOrEqual(".c?", literal.Int(3)), policy.Any(".l?[-2:]", policy.GreaterThan(".", literal.Int(0))), policy.Equal(".l?[-1]", literal.Int(3)),
+		policy.Equal(".name[1:4]", literal.String("éll")), policy.Like(".name[-5:]", "w*d")))
 	mk := func(iss, aud *fixtures.Key, pol policy.Policy, nbf time.Time) *delegation.Token {
 		// (a fixed expiration far in the future, with a sub-second fraction: the wire format is second-granular,
 		// so encoding must truncate a copy, never the token's own value)
@@ -191,7 +193,7 @@ func NewFixture(v Variant) *Fixture {
 	for _, k := range v.Keys {
 		opts = append(opts, invocation.WithArgument(k, vals[k]), invocation.WithMeta(k, "m-"+k))
 	}
-	opts = append(opts, invocation.WithArgument("l", []int{1, 2, 3}), invocation.WithMeta("secret", secretCiphertext(v)))
+	opts = append(opts, invocation.WithArgument("l", []int{1, 2, 3}), invocation.WithArgument("name", "héllo wörld"), invocation.WithMeta("secret", secretCiphertext(v)))
 	// the optional cause: absent (no keys), a CIDv1 (first key a), or a CIDv0 - the older link form, which names the same
 	// block as a CIDv1 with the dag-pb codec but is a different link: no operation may upgrade it in the token
 	if len(v.Keys) > 0 {
@@ -247,7 +249,7 @@ func NewFixture(v Variant) *Fixture {
 	}
 	f.AliasCid = alias[0]
 	mkInv := func(prf []cid.Cid) *invocation.Token {
-		t, err := invocation.New(leaf.DID, root.DID, "/a", prf, invocation.WithNonce(fixedNonce), invocation.WithoutInvokedAt(), invocation.WithArgument("l", []int{1, 2, 3}))
+		t, err := invocation.New(leaf.DID, root.DID, "/a", prf, invocation.WithNonce(fixedNonce), invocation.WithoutInvokedAt(), invocation.WithArgument("l", []int{1, 2, 3}), invocation.WithArgument("name", "héllo wörld"))
 		if err != nil {
 			panic(err)
 		}
@@ -256,6 +258,9 @@ func NewFixture(v Variant) *Fixture {
 	f.CtnInv, f.AliasInv = mkInv(real), mkInv(alias)
 	f.HookArgs = args.New()
 	if err := f.HookArgs.Add("l", []int{1, 2, 3}); err != nil {
+		panic(err)
+	}
+	if err := f.HookArgs.Add("name", "héllo wörld"); err != nil {
 		panic(err)
 	}
 	if err := f.HookArgs.Add("region", "eu"); err != nil {
